@@ -93,6 +93,7 @@ type Frame struct {
 	order    []*ssa.BasicBlock
 	loops    map[*ssa.BasicBlock]*loopInfo
 	cellOK   map[*ssa.Alloc]bool
+	cellT    map[string]types.Type // Go type of each local cell (for type facts after a loop havoc)
 	freeVars map[*ssa.FreeVar]ssa.Value
 	parent   *Frame
 	callSeq  int
@@ -802,6 +803,14 @@ func (f *Frame) enterLoop(h *ssa.BasicBlock, li *loopInfo, ins []inEdge) *State 
 			vc.assumeHeapWF(k, st.vars[k], vc.get(st, "alloc"))
 		}
 	}
+	// havocked local cells keep the invariants of their Go type (0 <= len <= cap, ...)
+	for k := range li.modified {
+		if t, ok := f.cellT[k]; ok {
+			if cur, isCur := st.vars[k]; isCur {
+				f.assumeTyped(t, cur, st)
+			}
+		}
+	}
 	f.havocPhis(h, st)
 	f.headerSt[h] = st.clone()
 	// assume invariants
@@ -989,6 +998,10 @@ func (f *Frame) execInstr(instr ssa.Instruction, st *State, b *ssa.BasicBlock, o
 		if f.cellOK[v] {
 			key := f.cellKey(v)
 			vc.registerVar(key, S.sortOf(elT))
+			if f.cellT == nil {
+				f.cellT = map[string]types.Type{}
+			}
+			f.cellT[key] = elT
 			st.vars[key] = S.zero(elT)
 			f.locs[v] = &Loc{kind: locCell, key: key, rootT: elT}
 			return
